@@ -14,8 +14,51 @@ os.chdir(work)
 for n, t in universe.FILES.items():
     with open(n, 'w', encoding='utf-8', newline='') as f:
         f.write(t)
+
+
+def freeze(o, depth=0, seen=None):
+    """a comparable picture of a module-level object"""
+    import types
+    seen = seen if seen is not None else set()
+    if depth > 6 or id(o) in seen:
+        return '...'
+    if isinstance(o, (str, int, float, bool, bytes, type(None))):
+        return o
+    seen = seen | {id(o)}
+    if isinstance(o, dict):
+        return ('dict', sorted((repr(k), freeze(v, depth + 1, seen)) for k, v in o.items()))
+    if isinstance(o, (list, tuple)):
+        return (type(o).__name__, [freeze(v, depth + 1, seen) for v in o])
+    if isinstance(o, (set, frozenset)):
+        return ('set', sorted(repr(v) for v in o))
+    if isinstance(o, (types.FunctionType, types.BuiltinFunctionType, types.ModuleType, type)):
+        return ('ref', getattr(o, '__qualname__', getattr(o, '__name__', '?')))
+    if hasattr(o, 'pattern') and hasattr(o, 'flags'):
+        return ('re', o.pattern, o.flags)
+    if hasattr(o, '__dict__'):
+        return (type(o).__name__, freeze(vars(o), depth + 1, seen))
+    return ('obj', type(o).__name__)
+
+
+def snapshot():
+    snap = {}
+    for mn, m in list(sys.modules.items()):
+        if not (mn == 'yalafi' or mn.startswith('yalafi.')) or m is None:
+            continue
+        for n, v in list(vars(m).items()):
+            if n.startswith('__'):
+                continue
+            import types
+            if isinstance(v, (types.ModuleType, types.FunctionType, type)):
+                continue
+            snap[mn + '.' + n] = freeze(v)
+    return snap
+
+
 hist = json.load(sys.stdin)
 out = []
+changed = []
+before = snapshot()
 for j in hist:
     c = parsecase.T2T.from_json(j)
     for n, t in (c.files or {}).items():
@@ -23,6 +66,12 @@ for j in hist:
             f.write(t)
     r = parsecase.run_t2t(c)
     out.append(r if r[0] != 'OK' else ['OK', r[1], r[2]])
-json.dump(out, sys.stdout)
+    after = snapshot()
+    for k in sorted(before):
+        if k in after and after[k] != before[k] and k not in changed:
+            changed.append(k)
+    for k in after:
+        before.setdefault(k, after[k])     # modules imported by this call
+json.dump({'results': out, 'globals_changed': changed}, sys.stdout)
 os.chdir(base)
 shutil.rmtree(work, ignore_errors=True)
